@@ -943,6 +943,16 @@ func (rn *Runner) Run() {
 			post = append(post, func(c *mail.Client) { c.SetSSL(true) })
 		}
 	}
+	if cfg.Variant == "sharedcfg" {
+		// one tls.Config object of the application (it names no server) is handed to two Clients: first to one for the host the
+		// "wrong name" certificate is valid for, then to the Client of the scenario - whose handshakes must verify against ITS host
+		tc := &tls.Config{MinVersion: tls.VersionTLS12}
+		if _, oerr := mail.NewClient("other.example.test", mail.WithTLSConfig(tc), mail.WithTLSPolicy(mail.TLSMandatory)); oerr != nil {
+			rn.Infra = oerr
+			return
+		}
+		add(mail.WithTLSConfig(tc), func(c *mail.Client) { _ = c.SetTLSConfig(tc) })
+	}
 	if cfg.Variant == "ssltoggle" { // implicit TLS requested and taken back before the dial
 		if rn.T%2 == 0 {
 			opts = append(opts, mail.WithSSL())
